@@ -12,7 +12,9 @@ Definition pow2_size (v : Z) : Prop := v = 4 \/ v = 8 \/ v = 16 \/ v = 32 \/ v =
 Definition pp_scope (p : pparams) : Prop :=
   1 <= pp_w p <= 32768 /\ 1 <= pp_h p <= 32768 /\ 1 <= pp_nc p <= 4 /\ 1 <= pp_prec p <= 16 /\
   0 <= pp_levels p <= 6 /\ pow2_size (pp_cbw p) /\ pow2_size (pp_cbh p) /\ pp_cbw p * pp_cbh p <= 4096 /\
-  0 <= pp_order p <= 4.
+  0 <= pp_order p <= 4 /\
+  (* the tile's origin on the reference grid and the image width *)
+  0 <= pp_x0 p /\ 0 <= pp_y0 p /\ pp_x0 p + pp_w p <= 32768 /\ pp_y0 p + pp_h p <= 32768 /\ 1 <= pp_iw p <= 32768.
 
 Definition samples_ok (p : pparams) (samples : list Z) : Prop :=
   zlen samples = pp_w p * pp_h p * pp_nc p /\ Forall (in_sample_range (pp_prec p) (pp_signed p)) samples.
